@@ -231,6 +231,8 @@ class World:
             ret = " -> _A_ret"
         names = [p[0] for p in params]
         argdict = "dict(" + ", ".join(f"{n}={n}" for n in names) + ")"
+        if spec.get("posonly"):
+            sig.insert(min(int(spec["posonly"]), len(sig)), "/")  # the leading parameters are positional-only
         pyname = py_name(self.scn, fid)
         if kind in ("fn", "gen", "coro", "inject"):
             if kind in ("fn", "inject"):
@@ -353,8 +355,20 @@ def build_value(v, frame=None, memo=None):
     raise HarnessError(f"unknown value kind {t}")
 
 
+_KEPT = __import__("threading").local()
+
+
+def keep_exceptions(on):
+    """While on, every exception that reaches the harness stays referenced (as with a logger, `pytest.raises(...) as excinfo`,
+    sys.last_exc): its traceback keeps the frames -- and suspended generators -- of the failed check alive."""
+    _KEPT.items = [] if on else None
+
+
 def exc_outcome(e):
     """Canonical record of an exception that reached the harness."""
+    kept = getattr(_KEPT, "items", None)
+    if kept is not None:
+        kept.append(e)
     name = type(e).__name__
     msg = norm_text(str(e))
     if name == "TypeCheckError":
@@ -723,7 +737,9 @@ class Interp:
                 omitted = True
                 continue
             a = args[i]
-            if omitted or kwmode == 2 or (kwmode == 1 and i >= len(names) // 2):
+            if i < int(spec.get("posonly") or 0) and not omitted:
+                pos.append(a)
+            elif omitted or kwmode == 2 or (kwmode == 1 and i >= len(names) // 2):
                 kw[n] = a
             else:
                 pos.append(a)
